@@ -72,6 +72,7 @@ def decide(pid, tier, seed):
     open_findings = [f for f in findings if f.get('status') == 'open' and f.get('property') == pid]
 
     results = run_units(cfg.get('units', []), tier)
+    out_lines = []
     obligations = []   # dict(name, engine, status, detail)
     violations = []    # dict(obligation, ...)
     undecided = []
@@ -211,10 +212,9 @@ def decide(pid, tier, seed):
                 violations.append({'obligation': name, 'kind': 'frame', 'fn': chk['name'], 'msg': detail, 'clause': chk.get('claim', ''), 'detail': detail, 'region': 'mechanical'})
 
     # ---- verdict
-    out_lines = []
     exit_code = 0
     # known findings: must re-confirm on the real code
-    for of, f in known_hits:
+    for of, f in [kh for kh in known_hits if not kh[0].get('e3')]:
         conf = replay.confirm_finding(of)
         if conf.get('confirmed'):
             out_lines.append('KNOWN-FINDING: property=%s %s' % (pid, of['what']))
@@ -228,9 +228,20 @@ def decide(pid, tier, seed):
             continue
         f['replay'] = rp
         real_violations.append(f)
+    e3_known = {}
+    for of in open_findings:
+        if of.get('e3'):
+            conf = replay.confirm_finding(of)
+            if conf.get('confirmed'):
+                out_lines.append('KNOWN-FINDING: property=%s %s' % (pid, of['what']))
+                known_hits.append((of, {'obligation': 'e3/' + of['e3']}))
+            else:
+                notes.append('known finding %s no longer reproduces on this tree (%s)' % (of['id'], conf.get('why', '')))
+            for inp in of.get('inputs', [of['input']]):
+                e3_known.setdefault(of['e3'], []).append(inp)
     for name in cfg.get('e3_always', []):
         # bounded stand-in for a function that is outside the verifiers' reach: labelled bounded, never counted as proved
-        rp = replay.search(pid, {'fn': name}, seed)
+        rp = replay.search(pid, {'fn': name}, seed, skip=e3_known.get(name))
         if rp.get('error'):
             undecided.append('bounded stand-in e3/%s did not run: %s' % (name, rp.get('how', '')[-400:]))
             continue
